@@ -183,5 +183,44 @@ pub fn explore(ex: &Ex) {
             }
         }
     });
+    // wide keys: many extras of mixed encoded lengths in several deterministic permutations
+    let widths: Vec<usize> = match ex.scale {
+        Scale::Small => vec![20],
+        Scale::Quick => vec![20, 33, 34, 48],
+        Scale::Thorough => vec![20, 33, 34, 48, 64, 100],
+    };
+    ex.bound("c20.wide", "extras", json!(widths));
+    par_partitions(ex.rep, widths, |n, l| {
+        let labels: Vec<RLabel> = (0..*n)
+            .map(|k| match k % 6 {
+                0 => l_int(6 + k as i64),          // one or two bytes
+                1 => l_int(-1 - k as i64),
+                2 => l_int(300 + k as i64),        // three bytes
+                3 => l_text(&format!("t{}", k)),
+                4 => l_int(-300 - k as i64),
+                _ => l_int(70000 + k as i64),      // five bytes
+            })
+            .collect();
+        let perms: Vec<Vec<usize>> = vec![
+            (0..*n).collect(),
+            (0..*n).rev().collect(),
+            (0..*n).map(|k| (k * 7 + 3) % *n).collect::<Vec<_>>(),
+            (0..*n).map(|k| (k * 11 + 5) % *n).collect::<Vec<_>>(),
+            (0..*n).map(|k| if k % 2 == 0 { k / 2 } else { *n - 1 - k / 2 }).collect(),
+        ];
+        for perm in perms {
+            // only true permutations (the multiplicative ones are, when gcd(step, n) == 1)
+            let mut seen = vec![false; *n];
+            if !perm.iter().all(|k| !std::mem::replace(&mut seen[*k], true)) {
+                continue;
+            }
+            let params: Vec<(RLabel, Item)> = perm.iter().map(|k| (labels[*k].clone(), u(*k as u64))).collect();
+            let rk = RKey { kty: l_int(1), key_id: vec![], alg: None, key_ops: vec![], base_iv: vec![], params };
+            for lex in [true, false] {
+                check_key(&rk, lex, false, l);
+                check_key(&rk, lex, true, l);
+            }
+        }
+    });
     let _ = b(b"");
 }
